@@ -344,9 +344,14 @@ func runC01(ctx *core.Ctx) {
 	only := os.Getenv("VERIF_C01_ONLY") // development aid: run one family of streams
 	if only == "" || only == "models" {
 		c01Models(ctx) // stage-level correspondence (c01_models.go)
+		c01ResetStream(ctx)
+	}
+	if only == "" || only == "schema" {
+		runSchemaCorr(ctx) // gojsonschema vs Schema.conforms (harness/schema.go): the tie behind Props/C01Schema.lean
 	}
 	if only == "" || only == "oracle" {
 		c01Cycles(ctx)
+		c01Tags(ctx, rich)
 		c01Missing(ctx)
 		c01Kinds(ctx, sch, rich)
 		c01OptionLattice(ctx, sch, rich)
@@ -570,6 +575,64 @@ func c01Cycles(ctx *core.Ctx) {
 		ctx.Add("c01cycle", c01Args{Req: core.LoadReq{Files: one(dep.String()), ConfigFiles: []string{"compose.yml"}, ProjectName: "p"}, Shape: fmt.Sprintf("cycle/depends-ring-%d", n), Expect: "cycle:depends_on"})
 		ctx.Count("cycle-include")
 		ctx.Add("c01cycle", c01Args{Req: core.LoadReq{Files: files, ConfigFiles: []string{"compose.yml"}, ProjectName: "p"}, Shape: fmt.Sprintf("cycle/include-ring-%d", n), Expect: "cycle:include"})
+	}
+}
+
+// ---------------------------------------------------------------- !reset / !override tags and merge keys in odd places
+
+func c01Tags(ctx *core.Ctx, rich M) {
+	docs := []string{
+		"!reset\nservices:\n  a:\n    image: i\n",
+		"--- !reset {}\n",
+		"!reset x\n",
+		"!override\nservices:\n  a:\n    image: i\n",
+		"services: !reset\n  a:\n    image: i\n",
+		"services: !reset null\n",
+		"services:\n  a: !reset\n    image: i\n",
+		"services:\n  a: !override\n    image: i\n",
+		"services:\n  a:\n    image: !reset i\n",
+		"services:\n  a:\n    image: i\n    command: [!reset a, b, !reset c]\n",
+		"services:\n  a:\n    image: i\n    command: [!reset a]\n",
+		"services:\n  a:\n    image: i\n    ports: !reset []\n    environment: !override {A: b}\n",
+		"services:\n  a:\n    image: i\n    !reset environment: {A: b}\n",
+		"x-a: &a !reset {k: v}\nservices:\n  a:\n    image: i\n    labels: *a\n",
+		"x-a: &a {k: !reset v}\nservices:\n  a:\n    image: i\n    labels: *a\n    annotations: *a\n",
+		"x-a: &a {k: v}\nservices:\n  a:\n    image: i\n    labels:\n      <<: *a\n      <<: *a\n",
+		"x-a: &a {k: v}\nservices:\n  a:\n    image: i\n    labels:\n      <<: [*a, *a, {l: !reset w}]\n",
+		"x-a: &a [1, 2]\nservices:\n  a:\n    image: i\n    labels:\n      <<: *a\n",
+		"services:\n  a:\n    image: i\n    labels:\n      <<: 3\n",
+		"services:\n  a:\n    image: i\n    <<: {command: x}\n  <<: {b: {image: j}}\n<<: {volumes: {v: {}}}\n",
+		"services:\n  a:\n    image: i\n    labels: *nope\n",
+		"services:\n  a: &x\n    image: i\n  b: *x\n  c:\n    <<: *x\n    extends: b\n",
+		"? [a, b]\n: c\nservices:\n  a:\n    image: i\n",
+		"services:\n  a:\n    image: i\n    ? {k: v}\n    : c\n",
+		"services:\n  a:\n    image: i\n    labels:\n      1: a\n      true: b\n      ~: c\n      1.5: d\n",
+		"1: 2\n",
+		"- a\n- b\n",
+		"just a string\n",
+		"",
+		"---\n---\n",
+		"services:\n  a:\n    image: i\n---\nservices:\n  a: !reset null\n---\n!reset\n",
+		"services:\n  a:\n    image: i\n    command: !!binary aGVsbG8=\n    container_name: !!int \"12\"\n    hostname: !!str 5\n    mem_limit: !!float 1\n",
+		"services:\n  a:\n    image: i\n    labels: !!set {a, b}\n    environment: !!omap [a: 1]\n    cap_add: !!seq {}\n",
+	}
+	for i, d := range docs {
+		for _, pos := range []string{"single", "override", "base"} {
+			req := core.LoadReq{Files: map[string]string{"compose.yml": d}, ConfigFiles: []string{"compose.yml"}, ProjectName: "p", Env: map[string]string{"S": "s"}}
+			switch pos {
+			case "override":
+				req.Files["base.yml"] = toYAML(rich)
+				req.ConfigFiles = []string{"base.yml", "compose.yml"}
+			case "base":
+				req.Files["over.yml"] = toYAML(rich)
+				req.ConfigFiles = []string{"compose.yml", "over.yml"}
+			}
+			for _, bits := range []int{0, 1} {
+				applyOptionBits(&req, bits)
+				ctx.Count("tags")
+				ctx.Add("c01load", c01Args{Req: req, Shape: fmt.Sprintf("tags/%s/%d", pos, i)})
+			}
+		}
 	}
 }
 
